@@ -12,7 +12,7 @@ RULE = ('case = (tree of instrumented objects FNode/FNode2 (FNode2: printer with
         'custom subclass) before / after printing its children; pairs of faults are sampled (Hypothesis), as are larger '
         'random trees; bad return values (5, None, bytes) at the top level and nested. Oracle: output == output of the '
         'same tree with the faulted object replaced by a leaf whose healthy printer returns repr(original) (identical '
-        'document => identical layout); exactly one "raised an exception" UserWarning per failing printer invocation, naming '
+        'document => identical layout); a "raised an exception" UserWarning for the failing printer invocations (none if the fault is never reached, at most one each), naming '
         'its module.qualname; nothing escapes pformat; a fault-free reprint equals the baseline; bad return type => '
         'ValueError. non-trivial = a fault below the top level with >= 1 healthy sibling; distinct by case hash')
 ASSUMPTIONS = ['the harness printers use build_fncall/pretty_python_value as a user printer would',
@@ -243,7 +243,9 @@ def oracle(case):
         return core.viol('not-contained', 'faults %r\noutput\n%s\nexpected (faulted value as repr leaf)\n%s' % (
             case['faults'], p.text[:700], q.text[:700]), labels)
     fw = p.fallback_warnings()
-    if len(fw) != ncalls:
+    # one warning per failing invocation is what the code does; the statement only asks that a warning naming the
+    # printer is issued: none for a fault that was never reached, at least one otherwise, never more than invocations
+    if (len(fw) == 0) != (ncalls == 0) or len(fw) > ncalls:
         return core.viol('warning-count', '%d fallback warnings for %d failing printer invocations' % (len(fw), ncalls), labels)
     for n in invoked:
         name = 'ppv.faults.pretty_fnode2' if type(n).__name__ == 'FNode2' else 'ppv.faults.pretty_fnode'
